@@ -283,6 +283,9 @@ func (r *Report) Finish() int {
 		case "discharged":
 			if v.CondOn != "" {
 				ncond++
+				if r.Verbose {
+					fmt.Printf("  cond      %-9s %5.2fs %s (rests on %s)\n", v.Backend, v.TimeS, v.Obl.Name, truncate(v.CondOn, 80))
+				}
 				break
 			}
 			nd++
